@@ -24,7 +24,9 @@ _WINDOWS_BOUND = "assert forall(0, len(windows), lambda t: forall(0, len(windows
 _KEY_CELL = ("by(0 <= col and col < array_mul, col == context + i * n_unique_tokens, array_mul == n_windows * n_unique_tokens + 1, "
              "0 <= i, i < n_windows, 0 <= context, context <= n_unique_tokens, n_unique_tokens >= 1)\n"
              "by(key >= 0 and key // array_mul == row and key % array_mul == col, key == col + array_mul * row, 0 <= col, col < array_mul, "
-             "row >= 0, array_mul >= 1)")
+             "row >= 0, array_mul >= 1)\n"
+             # ... which is the cell the accumulator's ghost functions assign to this key
+             "assert ROWOF(key) == row and COLOF(key) == col")
 _INTRO = ("intro_all('WF', coo_data)\nintro_all('KEYED', coo_data)\ntot = np.zeros(n_windows)\n"
           "assert forall(0, n_windows, lambda c: coo_data[c].ind[0] == 0 and len(coo_data[c].key) >= 2 and W(coo_data[c]) == 0)")
 _EMIT = "tot[i] = tot[i] + ite(key == KEY, val, 0)"
@@ -169,5 +171,72 @@ CONTRACTS[MS + "numba_build_multi_skip_grams"] = dict(
         "for#8": dict(invariant=[_COO_INV, "len(windows) == n_windows and len(kernels) == n_windows", "forall(0, n_windows, lambda t: len(kernels[t]) == len(windows[t]))",
                                  "len(this_ker) == len(window)"]),
         "for#9": dict(invariant=[_FINAL]),
+    },
+)
+
+
+# ---------------------------------------------------------------- EM iteration kernels (C10, C11): one pass over the corpus, em_update_matrix by contract
+_CSR = ["len(prior_indices) == len(prior_data)", "len(prior_indptr) >= 1",
+        "forall(0, len(prior_indptr) - 1, lambda r: 0 <= prior_indptr[r] and prior_indptr[r] <= prior_indptr[r + 1] and prior_indptr[r + 1] <= len(prior_indices))"]
+_EM_COMMON = [
+    "n_unique_tokens >= 1",
+    "len(window_reversals) == len(window_size_array) and len(mix_weights) == len(window_size_array)",
+    "forall(0, window_size_array.shape[0], lambda a: forall(0, window_size_array.shape[1], lambda b: window_size_array[a, b] >= 0))",
+]
+CONTRACTS[T + "numba_em_cooccurrence_iteration"] = dict(
+    params=dict(token_sequences="list[int[]]", window_size_array="int[,]", window_reversals="bool[]", kernel_functions="funcs", kernel_args="opaque",
+                mix_weights="real[]", n_unique_tokens="int", prior_indices="int[]", prior_indptr="int[]", prior_data="real[]"),
+    func_params={"kernel_functions": dict(returns="real[]", ensures=["len(ret) == len(arg0)"])},
+    local_types=dict(kernels="list[real[]]"),
+    requires=_EM_COMMON + _CSR + [
+        # every token id indexes the radius table and is a row of the CSR matrix being refined
+        "forall(0, len(token_sequences), lambda d: forall(0, len(token_sequences[d]), lambda p: 0 <= token_sequences[d][p] and "
+        "token_sequences[d][p] < window_size_array.shape[1] and token_sequences[d][p] + 1 < len(prior_indptr)))",
+    ],
+    returns="real[]",
+    ensures=["len(result) == len(prior_data)", "unchanged(prior_data) and unchanged(prior_indices) and unchanged(prior_indptr)"],
+    loops={
+        "for#1": dict(invariant=["len(posterior_data) == len(prior_data)", "len(window_reversal_const) == len(window_reversals)"]),
+        "for#2": dict(invariant=["len(posterior_data) == len(prior_data)", "len(window_reversal_const) == len(window_reversals)"]),
+    },
+)
+
+CONTRACTS[NGK + "numba_em_cooccurrence_iteration"] = dict(
+    params=dict(token_sequences="list[int[]]", window_size_array="int[,]", window_reversals="bool[]", kernel_functions="funcs", kernel_args="opaque",
+                mix_weights="real[]", n_unique_tokens="int", prior_indices="int[]", prior_indptr="int[]", prior_data="real[]",
+                ngram_dictionary="dict[str,int]", ngram_size="int", array_to_tuple="func"),
+    func_params={"kernel_functions": dict(returns="real[]", ensures=["len(ret) == len(arg0)"]), "array_to_tuple": dict(returns="keyfn")},
+    local_types=dict(kernels="list[real[]]"),
+    requires=_EM_COMMON + _CSR + [
+        "ngram_size >= 1",
+        # every fitted n-gram index indexes the radius table and is a row of the CSR matrix being refined
+        "dict_values_in(ngram_dictionary, 0, window_size_array.shape[1])", "dict_values_in(ngram_dictionary, 0, len(prior_indptr) - 1)",
+    ],
+    returns="real[]",
+    ensures=["len(result) == len(prior_data)", "unchanged(prior_data) and unchanged(prior_indices) and unchanged(prior_indptr)"],
+    loops={
+        "for#1": dict(invariant=["len(posterior_data) == len(prior_data)", "len(window_reversal_const) == len(window_reversals)",
+                                 "forall(0, len(window_reversal_const), lambda t: window_reversal_const[t] == 0 or window_reversal_const[t] == 1)"]),
+        "for#2": dict(invariant=["len(posterior_data) == len(prior_data)", "len(window_reversal_const) == len(window_reversals)",
+                                 "forall(0, len(window_reversal_const), lambda t: window_reversal_const[t] == 0 or window_reversal_const[t] == 1)"]),
+    },
+)
+
+CONTRACTS[TM + "numba_em_cooccurrence_iteration"] = dict(
+    params=dict(token_sequences="list[real[,2]]", window_size_array="int[,]", window_reversals="bool[]", kernel_functions="funcs", kernel_args="opaque",
+                mix_weights="real[]", n_unique_tokens="int", prior_indices="int[]", prior_indptr="int[]", prior_data="real[]"),
+    func_params={"kernel_functions": dict(returns="real[]", ensures=["len(ret) == len(arg0)"])},
+    local_types=dict(kernels="list[real[]]", windows="list[int[]]"),
+    inline_calls=["window_at_index"],
+    requires=_EM_COMMON + _CSR + [
+        "forall(0, len(token_sequences), lambda d: forall(0, len(token_sequences[d]), lambda p: 0 <= token_sequences[d][p, 0] and "
+        "token_sequences[d][p, 0] < window_size_array.shape[1] and token_sequences[d][p, 0] + 1 < len(prior_indptr)))",
+    ],
+    returns="real[]",
+    ensures=["len(result) == len(prior_data)", "unchanged(prior_data) and unchanged(prior_indices) and unchanged(prior_indptr)"],
+    loops={
+        "for#1": dict(invariant=["len(posterior_data) == len(prior_data)"]),
+        "for#2": dict(invariant=["len(posterior_data) == len(prior_data)"]),
+        "for#3": dict(invariant=["len(windows) == i and len(kernels) == i", "forall(0, i, lambda t: len(kernels[t]) == len(windows[t]))"]),
     },
 )
